@@ -15,10 +15,10 @@ import (
 // makes the client panic.
 
 type c05Scenario struct {
-	AfterReconnect  bool       `json:"after_reconnect,omitempty"`                    // the session under test was re-established by Resume after an earlier loss
+	AfterReconnect  bool       `json:"after_reconnect,omitempty"`                           // the session under test was re-established by Resume after an earlier loss
 	GracefulEnd     bool       `json:"server_ends_the_stream_after_the_sequence,omitempty"` // </stream:stream> follows the last element at once; the server keeps reading
-	LossWhilePaused bool       `json:"connection_lost_while_answers_wait,omitempty"` // with backpressure_window: the connection is lost while answers to <r/> still wait for their turn; the application then resumes
-	BackPressure    int        `json:"backpressure_window,omitempty"`                // >0: both receive windows are this small and the server stops reading while it sends
+	LossWhilePaused bool       `json:"connection_lost_while_answers_wait,omitempty"`        // with backpressure_window: the connection is lost while answers to <r/> still wait for their turn; the application then resumes
+	BackPressure    int        `json:"backpressure_window,omitempty"`                       // >0: both receive windows are this small and the server stops reading while it sends
 	Held            int        `json:"held_stanzas_before,omitempty"`
 	WebSocket       bool       `json:"websocket"`
 	Fragment        int        `json:"websocket_fragment_every,omitempty"` // >0: every n-th element is sent as a fragmented WebSocket message
